@@ -248,6 +248,21 @@ def check_reordering(idx: Index, rep: Report):
         rep.decide(gt == want, rule, f, f.node, text=f"operator on {n} spin-orbitals: index i -> i//2 (+ n/2 when i is odd), ladder types and coefficients kept",
                    what="alpha orbitals keep their spatial order in the first half, beta in the second; nothing else about a term changes",
                    reason=f"folded result differs: e.g. {sorted(set((gt or {}).items()) ^ set(want.items()), key=repr)[:2]}")
+    for label, terms in (("the zero operator", {}), ("a constant (identity term only)", {(): sp.Symbol("k")}), ("a constant plus a hopping term", {(): sp.Symbol("k"), ((1, 1), (2, 0)): sp.Symbol("c")})):
+        op = _QOp()
+        op.terms = dict(terms)
+        want = {tuple((i // 2 + (2 if i % 2 else 0), d) for i, d in t): c for t, c in terms.items()}
+        fo = make_folder(idx, MT, ctors={"FermionOperator": lambda args, kwargs: _QOp(*args, **kwargs)}, isinstance_hook=hook)
+        try:
+            got = fo.run_function(f.node, {"fermion_operator": op, "n_spinorbitals": 4})
+            gt, why = (got.terms if isinstance(got, _QOp) else None), ""
+        except Undecidable as e:
+            raise AnalysisError(f"make_up_then_down not foldable for {label}: {e}")
+        except Raised as e:
+            gt, why = None, f"raises {e.exc_type}"
+        rep.decide(gt == want, rule, f, f.node, text=f"re-ordering {label} on 4 spin-orbitals",
+                   what="the re-ordering is defined for every operator that fits the register, the zero operator and constants included (they are unchanged)",
+                   reason=why or f"folds to {gt}")
     small = _QOp(((0, 1), (1, 0)), sp.Symbol("c"))
     cases = [("3 spin-orbitals (odd)", {"fermion_operator": small, "n_spinorbitals": 3}, True), ("operator reaching beyond the register", {"fermion_operator": _QOp(((5, 1), (0, 0)), 1), "n_spinorbitals": 4}, True),
              ("4 spin-orbitals", {"fermion_operator": small, "n_spinorbitals": 4}, False)]
